@@ -51,6 +51,30 @@ CHECKS = {
     "C20": dict(cat="fault_enumeration", tech="TLC model checking of Raise/Propagate in Driver + enumeration of fault injection points replayed on the real solver, traces validated by TLC",
                 text="Design: after Raise only Propagate. Every call index (capped) of every callable kind of the explored runs x several exception types is injected; the trace must show the same exception object reaching the caller; the identical fault-free call afterwards equals the fresh-process result bit-for-bit; module-level mutable objects unchanged.",
                 ref="4.1, 4.8, 7/C20", note=DRIVER_NOTE),
+    "C01": dict(cat="model_checking", tech="TLC model checking of Driver under the convex environment contract with fairness (liveness) + exact KKT oracle (BoxQP.tla) replayed into the solver + TLC validation of traces/results of random convex runs",
+                text="Composition argument: Driver terminates at a stationary point and never reports ABNORMAL when the kernels honour their contracts (C08-C11 discharge those); every integer box-QP of the lattice (n <= 3, all boxes, all lattice starts) is solved by the real code and compared with TLC's exact KKT point; random convex families (n <= 12) are judged on the caller-side projected gradient whatever the message. Convergence on float families is exploration, exact decision only on the lattice.",
+                ref="3.2, 4.1, 4.5, 7/C01", note=DRIVER_NOTE + " Stationarity threshold max(gtol, 1e-6*max(1, |g|, pg0))."),
+    "C06": dict(cat="model_checking", tech="TLC model checking of restart in Driver and Restore o Externalise = LastN in Memory.tla + replay into initialize_X_and_G + TLC validation (Equiv monitor) of restart-vs-uninterrupted merged traces at every split point",
+                text="Design: restore arithmetic exact on the integer lattice, restart from any result, chains, maxcor reduced. Real runs: for every split iteration k, zero-iteration restart returns the same pairs (most recent when maxcor is reduced), continuation and chains of up to 4 restarts coincide with the uninterrupted run up to rounding (well-conditioned smooth families).",
+                ref="4.1, 4.4, 4.9, 7/C06", note=DRIVER_NOTE + " Known finding KF-C06-restart-after-rejected-update."),
+    "C07": dict(cat="model_checking", tech="TLC model checking of snapshot/crash composition in Driver + TLC trace validation of callback events + Equiv monitor on snapshot-vs-maxiter=k, restart-from-retained-state and callback-neutrality relations at every crash point",
+                text="Every iteration k of every explored run is a crash point: retained state == result of maxiter=k (bit-exact), immutable after the callback returns, restart from it continues like the uninterrupted run (up to rounding), a callback returning False is neutral (bit-exact).",
+                ref="4.1, 4.7, 4.9, 7/C07", note=DRIVER_NOTE + " Known finding KF-C07-restart-after-rejected-update."),
+    "C12": dict(cat="other", tech="Equiv.tla monitor (TLC) over merged evaluation traces of minimize_lbfgsb and SciPy's L-BFGS-B with deviation-aware acceptance; constants pinned; exact lattice algebra for theta / compact form",
+                text="Differential comparison with the reference implementation shipped in SciPy, orchestrated and judged by the TLA+ monitor: lock-step on every objective evaluation of the first 12 iterations unless a documented deviation or round-off is logged; same optimal value on convex box problems. TLA+ cannot compute the reference trajectories; it contributes the acceptance rule, the pinned constants and the exact algebra.",
+                ref="4.9, 7/C12, 8", note="Trusted: SciPy's L-BFGS-B as the reference; the harness-side detection of deviation triggers; tolerance rtol 1e-7 on points."),
+    "C13": dict(cat="model_checking", tech="TLC model checking of the update-function actions in Driver and of the filter laws in Memory.tla + lattice replay into make_X_and_G_respect_strong_wolfe + Equiv monitor on identity / switching / restart relations",
+                text="Identity update function is neutral (bit-exact, incl. message); after a rewrite at iteration k the pairs are bit-exact differences of the rewritten gradients, every retained pair has curvature, the newest point is retained, and the continuation equals a restart on the new objective from the state holding the rewritten history.",
+                ref="4.1, 4.4, 7/C13", note=DRIVER_NOTE),
+    "C14": dict(cat="model_checking", tech="TLC enumeration of all interleavings / nestings of two runs' yield points (Interleave.tla) replayed on threads with a hand-off scheduler + Equiv monitor (exact) on solo-vs-scheduled, repeated, read-only, logging and restart-twice relations",
+                text="All 70 (quick) / 924 (thorough) schedules of the first 4 / 6 objective calls of two runs and all nestings are replayed on the real code; results and evaluation logs must equal the solo runs bit-for-bit; inputs (x0, bounds, checkpoint) untouched and accepted read-only; iprint x logger has no numerical influence; restarting twice from one checkpoint gives the same result.",
+                ref="4.8, 4.7, 7/C14", note="Trusted: TLC; CPython's GIL-level atomicity of the hand-off scheduler; beyond the gated calls threads run freely (extra stress, not enumerated)."),
+    "C16": dict(cat="model_checking", tech="TLC rounding-adversary model of the bounded stencil + ScalarFn.tla in FD mode + TLC trace validation of FD runs + Equiv monitor on FD-vs-exact-gradient results",
+                text="No exception reaches the caller, every stencil point lies in the box, nfev counts every objective call (DriverTrace); on convex problems with active bounds the FD solution value matches the exact-gradient one to the accuracy of the scheme; all four modes, eps / rel_step varied.",
+                ref="4.6, 4.3, 7/C16", note=DRIVER_NOTE + " Degenerate sides (lb == ub) are exercised with callable gradients only: SciPy's differentiation routine returns NaN for a zero-width interval."),
+    "C19": dict(cat="model_checking", tech="TLC exact oracle for the polynomial benchmarks (stencils exact for the degree) replayed into the exported functions + TLC fixed-point evaluation of a 6th-order stencil relation for all eight pairs",
+                text="Polynomial pairs: exact value and gradient at every lattice point from an independent transcription. All eight pairs: the stencil relation between sampled function values and the exported gradient is judged by TLC in 32-bit fixed point (tolerance 1e-3 relative) - the weakest application of the family: a stateless numeric relation at sampling strength.",
+                ref="4.10, 7/C19, 8", note="Trusted: the harness's fixed-point conversion; no independent definition of cos/exp in TLA+."),
 }
 
 
